@@ -1,9 +1,11 @@
 (* Executable model of pkg/format/rtpav1 (encoder.go, decoder.go) and of the parts of
    mediacommon/pkg/codecs/av1 they call (LEB128, IsRandomAccess2).  Proof-free.
 
-   The two booleans [fx] (encoder) and [dfx] (decoder) select between the code that exists
-   ([false]) and the repaired code proposed in reports/av1.md ([true]); [enc], [dec], [run] at
-   the end of the file are the instances for the code that exists. *)
+   The two booleans [fx] (encoder) and [dfx] (decoder) select between the code before ([false])
+   and after ([true]) the fix commits aec245d (encoder: Y/Z only when a fragment has been written)
+   and ccfdafa (decoder: a packet without Z drops pending fragments) in /repo.  [enc], [dec],
+   [run] at the end of the file are the instances for the code that exists now ([true]); the
+   [..._old] instances are kept for the regression lemmas about the former behaviour. *)
 From GVL Require Import NList Wire Rtp.
 From GVG Require Import Consts.
 Open Scope N_scope.
@@ -211,8 +213,8 @@ Definition split_last {A} (l : list A) : option (list A * A) :=
 Inductive ores := OErr | OMore | OPanic | OObus (obus : list bytes).
 
 (* decodeOBUs after the element loop: W check, continuation (Z) part, "will continue" (Y) part.
-   In the code that exists a packet without Z leaves pending fragments in place; with [dfx] it
-   drops them. *)
+   Before commit ccfdafa ([dfx] = false) a packet without Z left pending fragments in place; now
+   it drops them. *)
 Definition post_parse (dfx : bool) (d : dstate) (seq : N) (z y : bool) (w : N) (obus : list bytes)
   : dstate * ores :=
   if negb (w =? 0) && negb (nlen obus =? w) then (d, OErr) else
@@ -299,11 +301,16 @@ Fixpoint dec_run_g (dfx : bool) (d : dstate) (ps : list packet) : dstate * list 
 Definition retained (d : dstate) : N * N :=
   (nlen (concat (dfrags d)) + nlen (concat (dbuf d)), nlen (dfrags d) + nlen (dbuf d)).
 
-(* ---- the code that exists ---- *)
-Definition enc := enc_g false.
-Definition enc_many := enc_many_g false.
-Definition dec := dec_g false.
-Definition dec_run := dec_run_g false.
+(* ---- the code that exists (with fix commits aec245d and ccfdafa) ---- *)
+Definition enc := enc_g true.
+Definition enc_many := enc_many_g true.
+Definition dec := dec_g true.
+Definition dec_run := dec_run_g true.
+
+(* ---- the code before the two fixes (regression lemmas only) ---- *)
+Definition enc_old := enc_g false.
+Definition dec_old := dec_g false.
+Definition dec_run_old := dec_run_g false.
 
 (* ---- wire ---- *)
 Definition put_res (r : dres (list bytes)) : list N :=
@@ -349,4 +356,4 @@ Definition run_g (fx dfx : bool) (c : list N) : list N :=
   | _ => bad_case
   end.
 
-Definition run : list N -> list N := run_g false false.
+Definition run : list N -> list N := run_g true true.
